@@ -635,10 +635,14 @@ func refDistinct(args []spec.V) outcome {
 		return ood("not a list")
 	}
 	d, textOnly := dedupe(l.Elems)
-	f := flagsFor(l)
 	if textOnly {
-		f = append(f, "text-equal-number")
+		// two members are equal only by their decimal text (0.1 through the
+		// float64 and the parsed route; a float64-derived 1e40 and the exact
+		// one): whether the library calls them equal is C03's subject, and the
+		// documents disagree (text for fractions, exact value for whole numbers)
+		return abstain("members equal by text only")
 	}
+	f := flagsFor(l)
 	return val(listOf(*l.T.E, d), f...)
 }
 
